@@ -191,6 +191,9 @@ def leak_class(model, s, got):
 
 
 PROFILE = {
+    'world_kw_st': st.fixed_dictionaries({
+        'handler_delay': st.sampled_from([{}, {}, {}, {'disconnect': 0.25}, {'message': 0.25},
+                                          {'disconnect': 0.25, 'message': 0.25}])}),
     'weights': {'open': 5, 'poll': 3, 'post': 2, 'probe_step': 3, 'ws_send': 1, 'ws_close': 2,
                 'ws_fail': 1, 'pong': 1, 'app_send': 4, 'app_disconnect': 2, 'advance': 5,
                 'api': 9, 'vanish': 3, 'fault': 1},
